@@ -145,6 +145,18 @@ func (p *Path) callFn(fn *ssa.Function, args []Value, env []Value) Value {
 		if r, ok := p.callNative(name, nf, fn, args); ok {
 			return r
 		}
+		if concretizeForNative[name] {
+			// no model: every feasible value of the symbolic string operands is a path of its own
+			cargs := append([]Value(nil), args...)
+			for i, a := range cargs {
+				if _, sym := a.(*SymStr); sym {
+					cargs[i] = p.concretizeStr(a)
+				}
+			}
+			if r, ok := p.callNative(name, nf, fn, cargs); ok {
+				return r
+			}
+		}
 		if fn.Blocks == nil || !p.w.eng.interpretable(fn) {
 			panic(unsupported("call of %s with symbolic arguments (no model)", name))
 		}
@@ -981,6 +993,9 @@ func (p *Path) decodeRuneAt(s Value, i int) (Value, int) {
 func (p *Path) runeOfByteKeepConcrete(b Value) Value {
 	return p.runeOfByte(b, "range over string")
 }
+
+// natives whose symbolic string operands are enumerated (small domains only: Concretize refuses more than 64 values per byte)
+var concretizeForNative = map[string]bool{"time.Parse": true}
 
 type mapIter struct {
 	es []*mapEntry
